@@ -13,12 +13,16 @@
 (***************************************************************************)
 EXTENDS Steps, TLC, Json
 
+CONSTANT Focus        \* "fields": scalar fields against each other; "maps": the three mappings (insertion order, sub-maps, swapped values)
 VARIABLES a, b
-NamesU   == {"a", "x:a"}
-PrefixU  == {NOSTR, "x"}
-TextU    == {0, 1, 2}              \* None, a text, the empty string
-KvU      == {<<>>, << <<"k1", 1>> >>}
-NsU      == {{}, {<<"x", "u">>}}
+NamesU   == IF Focus = "fields" THEN {"a", "x:a"} ELSE {"a"}
+PrefixU  == IF Focus = "fields" THEN {NOSTR, "x"} ELSE {NOSTR}
+TextU    == IF Focus = "fields" THEN {0, 1, 2} ELSE {0}             \* None, a text, the empty string
+KvU      == IF Focus = "fields" THEN {<<>>, << <<"k1", 1>> >>}
+            ELSE {<<>>, << <<"k1", 1>> >>, << <<"k1", 1>>, <<"k2", 2>> >>, << <<"k2", 2>>, <<"k1", 1>> >>,      \* the same mapping filled in two orders
+                  << <<"k1", 2>>, <<"k2", 1>> >>, << <<"k2", 2>> >>}                                         \* values swapped; a sub-map
+NsU      == IF Focus = "fields" THEN {{}, {<<"x", "u">>}}
+            ELSE {{}, {<<"x", "u">>}, {<<"x", "u">>, <<"y", "v">>}, {<<"x", "v">>, <<"y", "u">>}, {<<"y", "v">>}}
 NodeRec  == [name : NamesU, prefix : PrefixU, content : TextU, tail : TextU, attrs : KvU, extras : KvU, ns : NsU]
 
 (* nodes 1, 2: the two nodes as children of parents 3, 4; nodes 5, 6: the same two nodes alone *)
@@ -37,8 +41,11 @@ Init == a \in NodeRec /\ b \in NodeRec
 Next == UNCHANGED <<a, b>>
 Spec == Init /\ [][Next]_<<a, b>>
 
-OracleOK == LET S == State IN (TreeEq(S, 5, 6) <=> a = b) /\ (TreeEq(S, 3, 4) <=> a = b)
+(* mappings are compared as mappings: the order in which they were filled does not matter *)
+Same == /\ a.name = b.name /\ a.prefix = b.prefix /\ a.content = b.content /\ a.tail = b.tail /\ a.ns = b.ns
+        /\ Range(a.attrs) = Range(b.attrs) /\ Range(a.extras) = Range(b.extras)
+OracleOK == LET S == State IN (TreeEq(S, 5, 6) <=> Same) /\ (TreeEq(S, 3, 4) <=> Same)
 Log == LET S == State IN
-  PrintT(ToJson([k |-> "E", st |-> S, lvl |-> 1, same |-> (a = b),
+  PrintT(ToJson([k |-> "E", st |-> S, lvl |-> 1, same |-> Same,
                  eq |-> {<<m, n>> \in NodesOf(S) \X NodesOf(S) : m # n /\ TreeEq(S, m, n)}]))
 =============================================================================
